@@ -61,6 +61,7 @@ var c04Ref = []struct {
 
 type opGuard struct {
 	fn           *ast.FuncDecl
+	src          *ast.FuncDecl // the function whose body holds the guard (a generic level helper, or fn itself)
 	toks         []string // literals
 	signed       bool     // isSignedNumberToken in the condition
 	kind         string   // for | if | case
@@ -154,6 +155,25 @@ func c04Run(r *Run) {
 		}
 	}
 
+	// a generic level helper (operand parser and operator tokens passed as arguments) is analysed once
+	// per call site with its parameters bound to the arguments of that site
+	type c04Bind struct {
+		funcs map[types.Object]*types.Func
+		toks  map[types.Object][]string
+	}
+	var bind *c04Bind
+	resolve := func(c *ast.CallExpr) *types.Func {
+		if bind != nil {
+			if id, ok := ast.Unparen(c.Fun).(*ast.Ident); ok {
+				if f := bind.funcs[info.Uses[id]]; f != nil {
+					return f
+				}
+			}
+		}
+		f, _ := calleeOf(info, c).(*types.Func)
+		return f
+	}
+
 	// condition → tokens at offset 0
 	var condToks func(e ast.Expr) (toks []string, signed bool)
 	isCurrentType := func(e ast.Expr) bool {
@@ -188,6 +208,9 @@ func c04Run(r *Run) {
 			if l, ok := tokLit[o]; ok {
 				return l, true
 			}
+			if bind != nil && len(bind.toks[o]) == 1 {
+				return bind.toks[o][0], true
+			}
 		}
 		return "", false
 	}
@@ -214,6 +237,12 @@ func c04Run(r *Run) {
 						if tv, ok := info.Types[x.Args[0]]; ok && tv.Value != nil && tv.Value.String() == "0" {
 							var out []string
 							for _, a := range x.Args[1:] {
+								if id, ok := ast.Unparen(a).(*ast.Ident); ok && bind != nil && x.Ellipsis.IsValid() {
+									if ts, ok := bind.toks[info.Uses[id]]; ok {
+										out = append(out, ts...)
+										continue
+									}
+								}
 								if l, ok := tokOf(a); ok {
 									out = append(out, l)
 								}
@@ -238,9 +267,99 @@ func c04Run(r *Run) {
 	prefixOps := map[string]bool{"-": true, "!": true, "~": true}
 
 	// 2. analyse a function into a level
-	analyse := func(fd *ast.FuncDecl) *c04Level {
+	var analyse func(fd *ast.FuncDecl) *c04Level
+	// genericCall: `return h(operandParser, tokens...)` where h takes the operand parser as a function value
+	genericCall := func(fd *ast.FuncDecl) (*ast.FuncDecl, *c04Bind) {
+		if len(fd.Body.List) != 1 {
+			return nil, nil
+		}
+		ret, ok := fd.Body.List[0].(*ast.ReturnStmt)
+		if !ok || len(ret.Results) != 1 {
+			return nil, nil
+		}
+		call, ok := ast.Unparen(ret.Results[0]).(*ast.CallExpr)
+		if !ok {
+			return nil, nil
+		}
+		cal, _ := calleeOf(info, call).(*types.Func)
+		if cal == nil || !isParseSig(cal) || declOf[cal] == nil || declOf[cal] == fd {
+			return nil, nil
+		}
+		hd := declOf[cal]
+		sig := cal.Type().(*types.Signature)
+		b := &c04Bind{funcs: map[types.Object]*types.Func{}, toks: map[types.Object][]string{}}
+		nFuncs := 0
+		for i := 0; i < sig.Params().Len(); i++ {
+			po := paramObjAt(info, hd, i)
+			if po == nil {
+				return nil, nil
+			}
+			pt := sig.Params().At(i).Type()
+			variadic := sig.Variadic() && i == sig.Params().Len()-1
+			if psig, ok := pt.Underlying().(*types.Signature); ok && !variadic {
+				if psig.Results().Len() != 2 || psig.Params().Len() != 0 || i >= len(call.Args) {
+					return nil, nil
+				}
+				var id *ast.Ident
+				switch x := ast.Unparen(call.Args[i]).(type) {
+				case *ast.SelectorExpr:
+					id = x.Sel
+				case *ast.Ident:
+					id = x
+				}
+				if id == nil {
+					return nil, nil
+				}
+				f, _ := info.Uses[id].(*types.Func)
+				if f == nil || !isParseSig(f) {
+					return nil, nil
+				}
+				b.funcs[po] = f
+				nFuncs++
+				continue
+			}
+			if variadic {
+				if call.Ellipsis.IsValid() {
+					return nil, nil
+				}
+				ts := []string{}
+				for _, a := range call.Args[i:] {
+					l, ok := tokOf(a)
+					if !ok {
+						return nil, nil
+					}
+					ts = append(ts, l)
+				}
+				b.toks[po] = ts
+				continue
+			}
+			if i < len(call.Args) {
+				if l, ok := tokOf(call.Args[i]); ok {
+					b.toks[po] = []string{l}
+				}
+			}
+		}
+		if nFuncs == 0 {
+			return nil, nil
+		}
+		return hd, b
+	}
+	analyse = func(fd *ast.FuncDecl) *c04Level {
 		obj, _ := info.Defs[fd.Name].(*types.Func)
 		lv := &c04Level{fd: fd, obj: obj}
+		if bind == nil {
+			if hd, b := genericCall(fd); hd != nil {
+				bind = b
+				h := analyse(hd)
+				bind = nil
+				lv.left = h.left
+				for _, g := range h.guards {
+					g.fn = fd
+					lv.guards = append(lv.guards, g)
+				}
+				return lv
+			}
+		}
 		var leftPos token.Pos
 		// first parse call in a top-level statement
 		for _, s := range fd.Body.List {
@@ -257,7 +376,7 @@ func c04Run(r *Run) {
 				}
 			}
 			if call != nil {
-				if cal, ok := calleeOf(info, call).(*types.Func); ok && isParseSig(cal) {
+				if cal := resolve(call); cal != nil && isParseSig(cal) {
 					lv.left = cal
 					leftPos = call.Pos()
 					found = true
@@ -278,7 +397,7 @@ func c04Run(r *Run) {
 						if _, signed := condToks(x.Cond); signed {
 							ast.Inspect(x.Body, func(m ast.Node) bool {
 								if c, ok := m.(*ast.CallExpr); ok {
-									if cal, ok := calleeOf(info, c).(*types.Func); ok && cal.Name() == "next" {
+									if cal := resolve(c); cal != nil && cal.Name() == "next" {
 										g.hasNext = true
 									}
 								}
@@ -287,7 +406,7 @@ func c04Run(r *Run) {
 							if x.Else != nil {
 								ast.Inspect(x.Else, func(m ast.Node) bool {
 									if c, ok := m.(*ast.CallExpr); ok {
-										if cal, ok := calleeOf(info, c).(*types.Func); ok {
+										if cal := resolve(c); cal != nil {
 											if cal.Name() == "next" {
 												g.hasNext = true
 											}
@@ -303,7 +422,7 @@ func c04Run(r *Run) {
 							return false
 						}
 					case *ast.CallExpr:
-						if cal, ok := calleeOf(info, x).(*types.Func); ok {
+						if cal := resolve(x); cal != nil {
 							if cal.Name() == "next" {
 								g.hasNext = true
 							}
@@ -332,7 +451,7 @@ func c04Run(r *Run) {
 			if len(toks) == 0 && !signed {
 				return
 			}
-			g := &opGuard{fn: fd, toks: toks, signed: signed, kind: kind, pos: pos}
+			g := &opGuard{fn: fd, src: fd, toks: toks, signed: signed, kind: kind, pos: pos}
 			g.prefix = leftPos == token.NoPos || pos < leftPos
 			bodyInfo(g, body)
 			lv.guards = append(lv.guards, g)
@@ -450,8 +569,9 @@ func c04Run(r *Run) {
 		f := work[len(work)-1]
 		work = work[:len(work)-1]
 		ast.Inspect(declOf[f].Body, func(n ast.Node) bool {
-			if c, ok := n.(*ast.CallExpr); ok {
-				if cal, ok := calleeOf(info, c).(*types.Func); ok && isParseSig(cal) {
+			// calls and method values handed to a generic level helper
+			if id, ok := n.(*ast.Ident); ok {
+				if cal, ok := info.Uses[id].(*types.Func); ok && isParseSig(cal) {
 					push(cal)
 				}
 			}
@@ -509,11 +629,21 @@ func c04Run(r *Run) {
 		}
 		addHelpers(lv.fd, 0)
 	}
+	// a generic level helper is judged through its instantiations, not on its own
+	isGenericLevel := func(f *types.Func) bool {
+		sig := f.Type().(*types.Signature)
+		for i := 0; i < sig.Params().Len(); i++ {
+			if ps, ok := sig.Params().At(i).Type().Underlying().(*types.Signature); ok && ps.Results().Len() == 2 && ps.Params().Len() == 0 {
+				return true
+			}
+		}
+		return false
+	}
 	infix := map[string][]c04Occ{}
 	prefixG := []c04Occ{}
 	for f := range reach {
 		fd := declOf[f]
-		if recvTypeName(fd) != "ExpressionParser" || helperOf[f] != nil {
+		if recvTypeName(fd) != "ExpressionParser" || helperOf[f] != nil || isGenericLevel(f) {
 			continue
 		}
 		lv := levels[f]
@@ -916,7 +1046,11 @@ func c04Signed(r *Run, ppkg *packages.Package, lv *c04Level, g *opGuard, mul *c0
 	info := ppkg.TypesInfo
 	// find the statement list of the guard (loop body) and in it the if-statement testing isSignedNumberToken
 	var body *ast.BlockStmt
-	ast.Inspect(lv.fd.Body, func(n ast.Node) bool {
+	src := lv.fd
+	if g.src != nil {
+		src = g.src
+	}
+	ast.Inspect(src.Body, func(n ast.Node) bool {
 		if f, ok := n.(*ast.ForStmt); ok && f.Pos() == g.pos {
 			body = f.Body
 		}
@@ -948,13 +1082,26 @@ func c04Signed(r *Run, ppkg *packages.Package, lv *c04Level, g *opGuard, mul *c0
 		// inside the signed branch: is there a parse call that continues at the multiplicative level?
 		cont := false
 		var contName string
-		ast.Inspect(ifs.Body, func(m ast.Node) bool {
+		var scan func(body ast.Node, d int)
+		var visit func(m ast.Node) bool
+		scan = func(body ast.Node, d int) { ast.Inspect(body, visit) }
+		depthNow := 0
+		visit = func(m ast.Node) bool {
 			c, ok := m.(*ast.CallExpr)
 			if !ok {
 				return true
 			}
 			cal, ok := calleeOf(info, c).(*types.Func)
-			if !ok || !isParseSig(cal) {
+			if !ok {
+				return true
+			}
+			if !isParseSig(cal) {
+				// a helper of the parser that performs the split: its body belongs to the branch
+				if hd := declOf(ppkg, cal); hd != nil && hd.Body != nil && cal.Pkg() == ppkg.Types && depthNow < 2 {
+					depthNow++
+					scan(hd.Body, depthNow)
+					depthNow--
+				}
 				return true
 			}
 			contName = cal.Name()
@@ -971,7 +1118,8 @@ func c04Signed(r *Run, ppkg *packages.Package, lv *c04Level, g *opGuard, mul *c0
 				}
 			}
 			return true
-		})
+		}
+		scan(ifs.Body, 0)
 		if cont {
 			r.ok(key, ifs.Pos(), "the literal split from a signed number token is continued at the multiplicative level ("+contName+")")
 		} else {
@@ -991,68 +1139,89 @@ func c04OpTable(r *Run, npkg, tpkg *packages.Package, tokLit map[types.Object]st
 		r.fail("anchor not found: node.NewBinaryExpression")
 		return
 	}
-	var sw *ast.SwitchStmt
-	ast.Inspect(fd.Body, func(n ast.Node) bool {
-		if s, ok := n.(*ast.SwitchStmt); ok && sw == nil {
-			sw = s
-		}
-		return true
-	})
-	if sw == nil {
-		r.fail("node.NewBinaryExpression has no switch over the operator type")
-		return
-	}
 	type entry struct {
 		ctors []string
 		args  [][]string
 		pos   token.Pos
 	}
+	// the dispatch is evaluated once per token with the token known and the operands symbolic
 	table := map[string]*entry{}
-	for _, c := range sw.Body.List {
-		cc := c.(*ast.CaseClause)
-		for _, v := range cc.List {
-			var id *ast.Ident
-			switch x := ast.Unparen(v).(type) {
-			case *ast.SelectorExpr:
-				id = x.Sel
-			case *ast.Ident:
-				id = x
-			}
-			if id == nil {
-				continue
-			}
-			lit, ok := tokLit[info.Uses[id]]
-			if !ok {
-				continue
-			}
-			e := &entry{pos: cc.Pos()}
-			// the returned expression: outermost call first
-			for _, s := range cc.Body {
-				rs, ok := s.(*ast.ReturnStmt)
-				if !ok || len(rs.Results) != 1 {
-					continue
+	ev := &pvEval{pkg: npkg, info: info, isTok: func(o types.Object) bool { _, ok := tokLit[o]; return ok }}
+	var paramNames []string
+	var tokParam = -1
+	{
+		i := 0
+		for _, f := range fd.Type.Params.List {
+			for _, nm := range f.Names {
+				paramNames = append(paramNames, nm.Name)
+				if isNamed(info.TypeOf(f.Type), modPath+"/lexer", "Token") {
+					tokParam = i
 				}
-				var walk func(x ast.Expr)
-				walk = func(x ast.Expr) {
-					call, ok := ast.Unparen(x).(*ast.CallExpr)
-					if !ok {
-						return
-					}
-					if cal, ok := calleeOf(info, call).(*types.Func); ok {
-						e.ctors = append(e.ctors, cal.Name())
-						var as []string
-						for _, a := range call.Args {
-							as = append(as, exprStr(a))
-						}
-						e.args = append(e.args, as)
-					}
-					for _, a := range call.Args {
-						walk(a)
+				i++
+			}
+		}
+	}
+	if tokParam < 0 {
+		r.fail("node.NewBinaryExpression takes no lexer.Token operator parameter")
+		return
+	}
+	toks := []types.Object{}
+	for o := range tokLit {
+		toks = append(toks, o)
+	}
+	sort.Slice(toks, func(i, j int) bool { return toks[i].Name() < toks[j].Name() })
+	undecided := []string{}
+	for _, o := range toks {
+		args := make([]*pv, len(paramNames))
+		for i, nm := range paramNames {
+			args[i] = &pv{kind: pvLeaf, name: nm}
+		}
+		args[tokParam] = &pv{kind: pvOperator, tok: o}
+		ev.budget = 4000
+		res := ev.call(fd, args)
+		switch res.kind {
+		case pvNode:
+			e := &entry{pos: res.pos}
+			var walk func(v *pv)
+			walk = func(v *pv) {
+				if v.kind != pvNode {
+					return
+				}
+				e.ctors = append(e.ctors, v.name)
+				var as []string
+				for _, a := range v.args {
+					switch a.kind {
+					case pvLeaf:
+						as = append(as, a.name)
+					case pvNode:
+						as = append(as, a.name+"(…)")
+					default:
+						as = append(as, "?")
 					}
 				}
-				walk(rs.Results[0])
+				e.args = append(e.args, as)
+				for _, a := range v.args {
+					walk(a)
+				}
 			}
-			table[lit] = e
+			walk(res)
+			table[tokLit[o]] = e
+		case pvPanic, pvNil:
+		default:
+			undecided = append(undecided, o.Name())
+		}
+	}
+	if len(table) == 0 {
+		r.fail("node.NewBinaryExpression: the constructor dispatch could not be evaluated for any token (undecided: %d)", len(undecided))
+		return
+	}
+	r.stat("binary_dispatch_undecided_tokens", len(undecided))
+	undecidedSet := map[string]bool{}
+	for _, o := range toks {
+		for _, u := range undecided {
+			if u == o.Name() {
+				undecidedSet[tokLit[o]] = true
+			}
 		}
 	}
 	r.stat("binary_constructor_cases", len(table))
@@ -1090,8 +1259,10 @@ func c04OpTable(r *Run, npkg, tpkg *packages.Package, tokLit map[types.Object]st
 		key := "covers:" + lit
 		if e := table[lit]; e != nil {
 			r.ok(key, e.pos, fmt.Sprintf("%q → %s", lit, strings.Join(e.ctors, "∘")))
+		} else if undecidedSet[lit] {
+			r.fail("node.NewBinaryExpression: the dispatch for %q could not be evaluated statically", lit)
 		} else {
-			r.bad(key, sw.Pos(), fmt.Sprintf("the ladder passes %q to NewBinaryExpression but its switch has no case for it (the default arm panics)", lit))
+			r.bad(key, fd.Pos(), fmt.Sprintf("the ladder passes %q to NewBinaryExpression but its dispatch builds no node for it (it panics or returns nil)", lit))
 		}
 	}
 	// (ii) injectivity and operand order of plain operators; (iii) compound assignments
